@@ -348,4 +348,60 @@ RepairPart2(deltas) == Ok([sigma |-> SumSeq(deltas)])
 RepairPart3(sigmas, id, pkp) ==
   IF pkp.min = -1 THEN Err("InvalidMinSigners")
   ELSE LET s == SumSeq(sigmas) IN Ok([id |-> id, share |-> s, vs |-> s, vk |-> pkp.vk, min |-> pkp.min])
+
+-----------------------------------------------------------------------------
+(* frost-rerandomized *)
+
+\* Randomizer::regenerate_from_seed_and_commitments / RandomizedParams:
+\* alpha = HR(seed || encode(commitments)); params = (alpha, alpha*G, vk + alpha*G)
+RandParams(ro, vk, seed, comms) ==
+  IF ListHasIdent(comms) THEN Err("GroupError")
+  ELSE LET k == KeyHR(seed, comms) IN
+    IF k \notin DOMAIN ro THEN Need(k, DomHR)
+    ELSE Ok([alpha |-> ro[k], alphaG |-> ro[k], vk2 |-> Add(vk, ro[k])])
+
+FixedParams(vk, alpha) == [alpha |-> alpha, alphaG |-> alpha, vk2 |-> Add(vk, alpha)]
+
+RandomizeKp(kp, rp)   == [kp EXCEPT !.share = Add(@, rp.alpha), !.vs = Add(@, rp.alphaG), !.vk = rp.vk2]
+RandomizePkp(pkp, rp) == [pkp EXCEPT !.vs = [i \in DOMAIN pkp.vs |-> Add(pkp.vs[i], rp.alphaG)], !.vk = rp.vk2]
+
+\* sign_with_randomizer_seed: parameters regenerated from the key package's
+\* group key, the seed and the *package's* commitments
+SignRand(ro, pkg, non, kp, seed) ==
+  LET rp == RandParams(ro, kp.vk, seed, pkg.comms) IN
+  IF Stop(rp) THEN rp ELSE Sign(ro, pkg, non, RandomizeKp(kp, rp))
+
+AggregateRand(ro, pkg, shares, pkp, mode, rp) == Aggregate(ro, pkg, shares, RandomizePkp(pkp, rp), mode)
+
+-----------------------------------------------------------------------------
+(* signing_key.rs, batch.rs *)
+
+\* SigningKey::sign (default_sign): k = random_nonzero, R = G*k, z = k + c*s
+SingleSign(ro, s, k, msg) ==
+  LET k2 == KeyH2(k, s, msg) IN
+  IF k2 \notin DOMAIN ro THEN Need(k2, DomH2) ELSE Ok([R |-> k, z |-> Add(k, Mul(ro[k2], s))])
+
+\* batch::Item::new computes the challenge at queue time (identity R or key: GroupError)
+RECURSIVE BatchChallenges(_,_,_)
+BatchChallenges(ro, items, k) ==
+  IF k > Len(items) THEN Ok([c |-> << >>])
+  ELSE LET it == items[k] IN
+    IF IsIdent(it.sig.R) \/ IsIdent(it.vk) THEN Err("GroupError")
+    ELSE LET key == KeyH2(it.sig.R, it.vk, it.msg) IN
+      IF key \notin DOMAIN ro THEN Need(key, DomH2)
+      ELSE LET rest == BatchChallenges(ro, items, k + 1) IN
+           IF Stop(rest) THEN rest ELSE Ok([c |-> <<ro[key]>> \o rest.c])
+
+\* per-item error e_i = z_i - R_i - c_i*vk_i (0 iff the item verifies)
+ItemError(it, c) == Sub(Sub(it.sig.z, it.sig.R), Mul(c, it.vk))
+
+\* batch::Verifier::verify: one blinder per item, in queue order
+BatchVerify(ro, items, blinders) ==
+  LET ch == BatchChallenges(ro, items, 1) IN
+  IF Stop(ch) THEN ch
+  ELSE IF items = << >> THEN Err("InvalidSignature")
+  ELSE IF SumSeq([k \in DOMAIN items |-> Mul(blinders[k], ItemError(items[k], ch.c[k]))]) = 0
+       THEN Ok([singles |-> [k \in DOMAIN items |-> ItemError(items[k], ch.c[k]) = 0]])
+       ELSE [ok |-> FALSE, err |-> "InvalidSignature", culprits |-> << >>,
+             singles |-> [k \in DOMAIN items |-> ItemError(items[k], ch.c[k]) = 0]]
 =============================================================================
